@@ -154,6 +154,11 @@ pub enum Op {
     WriteSboms { name: u8, sboms: Vec<(u8, Vec<u8>)> },
     WriteExecD { name: u8, progs: Vec<(String, Vec<u8>)> },
     WritePlain { name: u8, path: String, data: Vec<u8> },
+    /// a symbolic link created by the buildpack inside the layer (target may dangle)
+    WriteLink { name: u8, path: String, target: String },
+    /// the next write to this layer goes through the PREVIOUS LayerRef of the current build (if the layer was requested
+    /// more than once) instead of the most recent one — every LayerRef of a layer stays usable
+    UseOlderRef { name: u8 },
     Restore,
 }
 
@@ -176,6 +181,8 @@ fn op_json(o: &Op) -> Value {
         Op::WriteSboms { name, sboms } => json!({"write_sboms": {"name": name, "sboms": sboms.iter().map(|(f, d)| json!([f, bytes_to_json(d)])).collect::<Vec<_>>()}}),
         Op::WriteExecD { name, progs } => json!({"write_exec_d": {"name": name, "progs": progs.iter().map(|(n, d)| json!([n, bytes_to_json(d)])).collect::<Vec<_>>()}}),
         Op::WritePlain { name, path, data } => json!({"write_plain": {"name": name, "path": path, "data": bytes_to_json(data)}}),
+        Op::UseOlderRef { name } => json!({"use_older_ref": {"name": name}}),
+        Op::WriteLink { name, path, target } => json!({"write_link": {"name": name, "path": path, "target": target}}),
         Op::Restore => json!("restore"),
     }
 }
@@ -200,6 +207,8 @@ fn op_from_json(v: &Value) -> Op {
         "write_metadata" => Op::WriteMetadata { name, value: MetaVal::from_json(&x["value"]) },
         "write_env" => Op::WriteEnv { name, entries: entries_from_json(&x["entries"]) },
         "write_sboms" => Op::WriteSboms { name, sboms: x["sboms"].as_array().unwrap().iter().map(|p| (p[0].as_u64().unwrap() as u8, json_to_bytes(&p[1]))).collect() },
+        "use_older_ref" => Op::UseOlderRef { name },
+        "write_link" => Op::WriteLink { name, path: x["path"].as_str().unwrap().into(), target: x["target"].as_str().unwrap().into() },
         "write_exec_d" => Op::WriteExecD { name, progs: x["progs"].as_array().unwrap().iter().map(|p| (p[0].as_str().unwrap().to_string(), json_to_bytes(&p[1]))).collect() },
         _ => Op::WritePlain { name, path: x["path"].as_str().unwrap().into(), data: json_to_bytes(&x["data"]) },
     }
@@ -471,7 +480,8 @@ pub fn run_history_in(root: &Path, h: &[Op], names: &[&str], cleanup: bool) -> H
     for n in names {
         model.layer(n);
     }
-    let mut refs: BTreeMap<u8, Box<dyn RefOps>> = BTreeMap::new();
+    let mut refs: BTreeMap<u8, Vec<Box<dyn RefOps>>> = BTreeMap::new();
+    let mut use_older: std::collections::BTreeSet<u8> = Default::default();
     let mut out = HistOutcome { steps: 0, nontrivial: false, classes: vec![], fail: None };
     let mut restored_since = false;
     let r = (|| -> Check {
@@ -555,27 +565,37 @@ pub fn run_history_in(root: &Path, h: &[Op], names: &[&str], cleanup: bool) -> H
                     }
                     match got {
                         Ok(lr) => {
-                            refs.insert(*name % names.len() as u8, lr);
+                            refs.entry(*name % names.len() as u8).or_default().push(lr);
                         }
                         Err(_) => {
                             refs.remove(&(*name % names.len() as u8));
                         }
                     }
                 }
+                Op::UseOlderRef { name } => {
+                    use_older.insert(*name % names.len() as u8);
+                }
                 Op::Restore => {
                     out.classes.push("restore");
                     model.restore();
                     restore_on_disk(&bc.layers_dir, &model);
                     refs.clear();
+                    use_older.clear();
                     restored_since = true;
                     compare_disk("harness", &bc.layers_dir, &model, names).map_err(|f| Fail::new("harness:restore-model-mismatch", f.msg))?;
                 }
-                Op::WriteMetadata { name, .. } | Op::WriteEnv { name, .. } | Op::WriteSboms { name, .. } | Op::WriteExecD { name, .. } | Op::WritePlain { name, .. } => {
+                Op::WriteMetadata { name, .. } | Op::WriteEnv { name, .. } | Op::WriteSboms { name, .. } | Op::WriteExecD { name, .. } | Op::WritePlain { name, .. } | Op::WriteLink { name, .. } => {
                     let key = *name % names.len() as u8;
                     let lname = names[key as usize];
-                    let Some(lr) = refs.get(&key) else {
+                    let Some(stack) = refs.get(&key).filter(|v| !v.is_empty()) else {
                         out.classes.push("write:skipped-no-layer-ref");
                         continue;
+                    };
+                    let lr = if use_older.remove(&key) && stack.len() >= 2 {
+                        out.classes.push("write:through-an-older-layer-ref");
+                        &stack[stack.len() - 2]
+                    } else {
+                        &stack[stack.len() - 1]
                     };
                     let others_before = others_snapshot(&bc.layers_dir, lname);
                     let res = match op {
@@ -608,6 +628,15 @@ pub fn run_history_in(root: &Path, h: &[Op], names: &[&str], cleanup: bool) -> H
                             std::fs::create_dir_all(p.parent().unwrap()).unwrap();
                             std::fs::write(&p, data).unwrap();
                             model.layer(lname).plain.insert(path.clone(), data.clone());
+                            Ok(())
+                        }
+                        Op::WriteLink { path, target, .. } => {
+                            out.classes.push("write:symlink");
+                            let p = lr.lpath().join(path);
+                            std::fs::create_dir_all(p.parent().unwrap()).unwrap();
+                            let _ = std::fs::remove_file(&p);
+                            std::os::unix::fs::symlink(target, &p).unwrap();
+                            model.layer(lname).links.insert(path.clone(), target.clone());
                             Ok(())
                         }
                         _ => unreachable!(),
@@ -682,6 +711,7 @@ fn op_strategy(nnames: u8) -> impl Strategy<Value = Op> {
         2 => (name.clone(), proptest::collection::vec((0u8..3, small_bytes()), 0..4)).prop_map(|(name, sboms)| Op::WriteSboms { name, sboms }),
         2 => (name.clone(), proptest::collection::vec((prop_oneof![Just("a".to_string()), Just("prog two".to_string()), Just("z.sh".to_string())], small_bytes()), 0..3)).prop_map(|(name, progs)| Op::WriteExecD { name, progs }),
         2 => (name.clone(), prop_oneof![Just("file.txt".to_string()), Just("bin/tool".to_string()), Just("lib/libx.so".to_string()), Just("data/nested/deep.bin".to_string()), Just("include/x.h".to_string())], small_bytes()).prop_map(|(name, path, data)| Op::WritePlain { name, path, data }),
+        1 => name.clone().prop_map(|name| Op::UseOlderRef { name }),
         5 => Just(Op::Restore),
     ]
 }
@@ -693,6 +723,7 @@ fn write_op_strategy(name: u8) -> impl Strategy<Value = Op> {
         2 => proptest::collection::vec((0u8..3, small_bytes()), 0..4).prop_map(move |sboms| Op::WriteSboms { name, sboms }),
         2 => proptest::collection::vec((prop_oneof![Just("a".to_string()), Just("prog two".to_string()), Just("z.sh".to_string())], small_bytes()), 0..3).prop_map(move |progs| Op::WriteExecD { name, progs }),
         2 => (prop_oneof![Just("file.txt".to_string()), Just("bin/tool".to_string()), Just("lib/libx.so".to_string()), Just("data/nested/deep.bin".to_string())], small_bytes()).prop_map(move |(path, data)| Op::WritePlain { name, path, data }),
+        1 => (prop_oneof![Just("current".to_string()), Just("bin/tool-link".to_string()), Just("data/latest".to_string())], prop_oneof![Just("does/not/exist".to_string()), Just("file.txt".to_string()), Just("/nonexistent/abs".to_string()), Just("data".to_string())]).prop_map(move |(path, target)| Op::WriteLink { name, path, target }),
     ]
 }
 
@@ -703,9 +734,16 @@ fn structured_history_strategy(nnames: u8, max_builds: usize) -> impl Strategy<V
             6 => (any::<bool>(), any::<bool>(), mtype_strategy(), rdec_strategy(), idec_strategy()).prop_map(move |(build, launch, m, on_restored, on_invalid)| Op::Cached { name, build, launch, m, on_restored, on_invalid }),
             1 => (any::<bool>(), any::<bool>()).prop_map(move |(build, launch)| Op::Uncached { name, build, launch }),
         ];
-        (req, proptest::collection::vec(write_op_strategy(name), 0..4)).prop_map(|(r, mut w)| {
+        let req2 = (any::<bool>(), any::<bool>(), mtype_strategy(), rdec_strategy(), idec_strategy()).prop_map(move |(build, launch, m, on_restored, on_invalid)| Op::Cached { name, build, launch, m, on_restored, on_invalid });
+        (req, proptest::collection::vec(write_op_strategy(name), 0..4), proptest::option::weighted(0.25, (req2, write_op_strategy(name)))).prop_map(move |(r, mut w, again)| {
             let mut v = vec![r];
             v.append(&mut w);
+            if let Some((r2, w2)) = again {
+                // request the layer a second time (other flags / type) and write through the FIRST reference
+                v.push(r2);
+                v.push(Op::UseOlderRef { name });
+                v.push(w2);
+            }
             v
         })
     });
@@ -750,6 +788,7 @@ fn reduced_alphabet() -> Vec<Op> {
     ops.push(Op::WriteSboms { name: 0, sboms: vec![(2, b"{}".to_vec())] });
     ops.push(Op::WriteExecD { name: 0, progs: vec![("p".into(), b"#!".to_vec())] });
     ops.push(Op::WritePlain { name: 0, path: "bin/tool".into(), data: b"x".to_vec() });
+    ops.push(Op::WriteLink { name: 0, path: "current".into(), target: "does/not/exist".into() });
     ops.push(Op::Restore);
     ops
 }
@@ -774,7 +813,7 @@ fn absorb(ctx: &Ctx, h: &[Op], o: HistOutcome, sub: &str) -> bool {
 }
 
 pub fn run(ctx: &Ctx) {
-    ctx.set_rule("histories of layer requests (cached x build/launch x metadata type {generic, V1, V2} x restored-callback decisions {keep, delete, with/without cause, plain/Result shape, error} x invalid-metadata decisions {delete, replace with a valid value, causes, shapes, error}; uncached x flags), layer writes through the returned LayerRef (metadata of the three types, env over all four scopes with byte-string names, SBOM sets, exec.d sets, plain files incl. bin/ lib/) and simulated lifecycle restores (cache=true keeps dir+metadata+SBOMs without types; launch-only keeps the metadata file only; others vanish) over 3 (quick) / 5 (thorough) layer names (prefix-related: 'alpha', 'alpha2', 'alpha.v2 layer' with a dot and a space; thorough adds a non-ASCII one), executed against a real BuildContext on a temp layers directory and against a reference model, compared after EVERY step. bounded-exhaustive: all histories of length <= 3 over a reduced alphabet of 32 operations on one layer (33 824 histories) plus all histories of the shape request, write(s), restore, request over the same alphabet; sampled: histories of length <= 24 (quick) / <= 60 (thorough). Oracle: reported state == callback decisions; callback invocation log (which callback, with which metadata and path) == model; disk == model (files bytewise, content metadata via Python tomllib, SBOM files), empty layer has no entries, other layers byte-identical. Non-trivial: history contains a restore followed by a request on a layer that at that moment has a directory and at least one of {SBOM, env entry, exec.d program, metadata}; distinct = hash of the operation list.");
+    ctx.set_rule("histories of layer requests (cached x build/launch x metadata type {generic, V1, V2} x restored-callback decisions {keep, delete, with/without cause, plain/Result shape, error} x invalid-metadata decisions {delete, replace with a valid value, causes, shapes, error}; uncached x flags), layer writes through the returned LayerRef (metadata of the three types, env over all four scopes with byte-string names, SBOM sets, exec.d sets, plain files incl. bin/ lib/, symbolic links incl. dangling ones) and simulated lifecycle restores (cache=true keeps dir+metadata+SBOMs without types; launch-only keeps the metadata file only; others vanish) over 3 (quick) / 5 (thorough) layer names (prefix-related: 'alpha', 'alpha2', 'alpha.v2 layer' with a dot and a space; thorough adds a non-ASCII one), executed against a real BuildContext on a temp layers directory and against a reference model, compared after EVERY step. bounded-exhaustive: all histories of length <= 3 over a reduced alphabet of 33 operations on one layer (37 060 histories) plus all histories of the shape request, write(s), restore, request over the same alphabet; sampled: histories of length <= 24 (quick) / <= 60 (thorough). Oracle: reported state == callback decisions; callback invocation log (which callback, with which metadata and path) == model; disk == model (files bytewise, content metadata via Python tomllib, SBOM files), empty layer has no entries, other layers byte-identical. Non-trivial: history contains a restore followed by a request on a layer that at that moment has a directory and at least one of {SBOM, env entry, exec.d program, metadata}; distinct = hash of the operation list.");
     ctx.assume("the lifecycle is the abstraction stated in the property's quantifier, applied to the real directory by the harness");
     ctx.assume("malformed TOML and hand-edited env directories are not generated");
     ctx.set_exhaustive(true);
@@ -797,7 +836,7 @@ pub fn run(ctx: &Ctx) {
     }
     // pattern-exhaustive: request, write(s), restore, request — the shortest shape in which a restored layer carries data
     let reqs: Vec<&Op> = alpha.iter().filter(|o| matches!(o, Op::Cached { .. } | Op::Uncached { .. })).collect();
-    let writes: Vec<&Op> = alpha.iter().filter(|o| matches!(o, Op::WriteMetadata { .. } | Op::WriteEnv { .. } | Op::WriteSboms { .. } | Op::WriteExecD { .. } | Op::WritePlain { .. })).collect();
+    let writes: Vec<&Op> = alpha.iter().filter(|o| matches!(o, Op::WriteMetadata { .. } | Op::WriteEnv { .. } | Op::WriteSboms { .. } | Op::WriteExecD { .. } | Op::WritePlain { .. } | Op::WriteLink { .. })).collect();
     for a in &reqs {
         for w in &writes {
             for b in &reqs {
@@ -870,7 +909,7 @@ pub fn apply_ops(bc: &BuildContext<HB>, ops: &[Op], names: &[&str], side: &Path)
     let mut refs: BTreeMap<u8, Box<dyn RefOps>> = BTreeMap::new();
     for op in ops {
         match op {
-            Op::Restore => {}
+            Op::Restore | Op::UseOlderRef { .. } => {}
             Op::Cached { name, build, launch, m, on_restored, on_invalid } => {
                 let key = *name % names.len() as u8;
                 let ln: LayerName = names[key as usize].parse().map_err(|_| "layer name".to_string())?;
@@ -922,6 +961,14 @@ pub fn apply_ops(bc: &BuildContext<HB>, ops: &[Op], names: &[&str], side: &Path)
                     let p = lr.lpath().join(path);
                     std::fs::create_dir_all(p.parent().unwrap()).map_err(|e| e.to_string())?;
                     std::fs::write(&p, data).map_err(|e| e.to_string())?;
+                }
+            }
+            Op::WriteLink { name, path, target } => {
+                if let Some(lr) = refs.get(&(*name % names.len() as u8)) {
+                    let p = lr.lpath().join(path);
+                    std::fs::create_dir_all(p.parent().unwrap()).map_err(|e| e.to_string())?;
+                    let _ = std::fs::remove_file(&p);
+                    std::os::unix::fs::symlink(target, &p).map_err(|e| e.to_string())?;
                 }
             }
         }
